@@ -79,8 +79,7 @@ def readAddrLoop : Nat → Bytes → Option (List (Option Addr) × Bytes)
       let (rest, r) ← readAddrLoop n r
       pure (some (.v6 ip port) :: rest, r)
     else if ty = C.NETCODE_ADDRESS_NONE then
-      let (rest, r) ← readAddrLoop n r
-      pure (none :: rest, r)
+      none                                     -- "Empty server address in ConnectToken" (repaired: was skipped)
     else none                                  -- "Unknown ip address type"
 
 /-- token.rs `read_server_addresses` (repaired: a token whose first slot is empty is rejected) -/
